@@ -524,3 +524,12 @@ type GetField struct{ table, name string }
 func (g *GetField) Eval(ctx *Context, row Row) (any, error) { return nil, nil }
 func (g *GetField) Type(ctx *Context) Type                  { return nil }
 func (g *GetField) IsSameField(o *GetField) bool            { return g.table == o.table && g.name == o.name }
+
+func (l *Literal) Value() any { return l.v }
+func NewTrue() *Literal       { return NewLiteral(true, boolType{}) }
+func NewFalse() *Literal      { return NewLiteral(false, boolType{}) }
+
+func ConvertToBool(ctx *Context, v any) (bool, error) {
+	b, _ := v.(bool)
+	return b, nil
+}
